@@ -211,8 +211,8 @@ func forDirected5(g *vlib.G, quickStep, thoroughStep uint32, f func(key string, 
 
 // plan5 is the realisation plan of the 5-node digraph sweeps: two
 // realisations per graph in quick, all twelve in thorough. dir-flow5 covers
-// all 2^20 graphs in both tiers, dir-intervals5 a half and dir-topo5 a quarter
-// of them in quick and all in thorough.
+// all 2^20 graphs in both tiers, dir-intervals5 a quarter and dir-topo5 an
+// eighth of them in quick and all in thorough.
 func plan5(g *vlib.G, mask uint32) []combo {
 	if g.Thorough() {
 		return allCombos
@@ -231,16 +231,16 @@ func genDirFlow5(g *vlib.G) {
 }
 
 func genDirIntervals5(g *vlib.G) {
-	forDirected5(g, 2, 1, func(key string, s gspec) {
+	forDirected5(g, 4, 1, func(key string, s gspec) {
 		plan := plan5(g, s.mask)
 		g.Case(key, func(t *vlib.T) { dirFlowCase(t, "dir-intervals5", key, s, 0, true, plan) })
 	})
 }
 
 // genDirTopo5 extends the SCC / topological sort / cycle enumeration checks
-// to directed graphs on 5 nodes (quick: a fixed quarter, thorough: all).
+// to directed graphs on 5 nodes (quick: a fixed eighth, thorough: all).
 func genDirTopo5(g *vlib.G) {
-	forDirected5(g, 4, 1, func(key string, s gspec) {
+	forDirected5(g, 8, 1, func(key string, s gspec) {
 		plan := plan5(g, s.mask)
 		g.Case(key, func(t *vlib.T) { dirTopoCase(t, "dir-topo5", key, s, plan) })
 	})
